@@ -19,8 +19,9 @@ Oracle:
     be replayed either);
   * unreplayable flows (live, intercepted, missing content, TCP/UDP/DNS, WebSocket) are not queued, keep their
     state and never reach a server; replayable ones are queued;
-  * after stop_replay the queue is empty, every flow that was still queued has exactly the state it had before
-    start_replay, and none of them reaches a server afterwards.
+  * after stop_replay the queue is empty, every flow that was still queued has exactly the state it had before its
+    FIRST still-pending submission (a flow may be submitted again while it waits in the queue), and none of them
+    reaches a server afterwards.
 """
 import asyncio
 
@@ -154,7 +155,7 @@ def run_scenario(sc, ctx):
 
     box = {}
     fails = []  # (bucket, msg)
-    info = {"stop_nonempty": 0, "replayed": 0, "modes": [], "stuck": False}
+    info = {"stop_nonempty": 0, "replayed": 0, "modes": [], "stuck": False, "resubmitted": 0, "stop_dirty": 0, "connects": 0}
 
     def setup(loop):
         box["net"] = simloop.Net(loop, [{"delay": s["cdelay"], "outcome": s["connect"]} for s in sc["servers"]])
@@ -170,6 +171,9 @@ def run_scenario(sc, ctx):
         pre = {}  # flow index -> state before the start_replay that queued it
         stopped = set()  # flow indices cleared by a stop and not queued again
         started = []  # flow indices whose replay has shown its first hook
+        current = {"i": None}  # flow whose replay showed its first hook last
+        did_connect = set()  # flows whose latest replay made a connection attempt
+        dirty = set()  # flows with a submission still queued while an earlier submission has been replayed meanwhile
         cp = ClientPlayback()
 
         def previous_still_in_flight(i, where):
@@ -181,12 +185,35 @@ def run_scenario(sc, ctx):
                 fails.append(("overlap:previous-connection-handler-pending:" + where,
                               "replay of flow %d starts while %r of the previous replay are still running" % (i, busy)))
             for j in started:
-                if j != i and j not in model and j not in stopped and flows[j].live:
+                # (only replays that went to a server: a flow submitted twice still carries the first replay's
+                #  response when it is dequeued again; the layer then answers from that response, a path whose
+                #  live-flag handling is not what this property is about)
+                if j != i and j in did_connect and j not in model and j not in stopped and flows[j].live:
                     fails.append(("overlap:previous-flow-still-live:" + where,
                                   "replay of flow %d starts while flow %d is still live" % (i, j)))
 
         def on_first(i):
+            """first hook (requestheaders) of a replay: the playback loop has dequeued flow i"""
             previous_still_in_flight(i, "at-first-hook")
+            if replayed:
+                j = replayed[-1]  # (a flow queued again has been reset by start_replay, one cleared by stop was reverted)
+                if j != i and j not in model and j not in stopped and flows[j].response is None and flows[j].error is None:
+                    fails.append(("overlap:previous-flow-unfinished", "replay of flow %d starts, flow %d has neither response nor error" % (i, j)))
+            if not (0 <= i < len(flows)) or kinds[i] in UNREPLAYABLE:
+                fails.append(("unreplayable-replayed:%s" % (kinds[i] if 0 <= i < len(flows) else "?"), "flow %r" % i))
+            elif not model:
+                fails.append(("order:unexpected-replay:%s" % ("after-stop" if i in stopped else "not-queued"), "flow %d is replayed, model queue is empty" % i))
+            elif model[0] != i:
+                fails.append(("order:not-fifo", "flow %d is replayed, expected %d (queue %r)" % (i, model[0], model)))
+                if i in model:
+                    model.remove(i)
+            else:
+                model.pop(0)
+            if i in model:
+                dirty.add(i)  # a later submission of the same flow is still waiting
+            replayed.append(i)
+            current["i"] = i
+            did_connect.discard(i)
             if i not in started:
                 started.append(i)
 
@@ -196,27 +223,18 @@ def run_scenario(sc, ctx):
             k = call["i"]
             previous_still_in_flight(i, "at-connect")
             info["modes"].append(sc["servers"][k]["mode"] if k < len(sc["servers"]) else "respond")
+            info["connects"] += 1
+            did_connect.add(i)
             # sequential: nothing else in flight
             for c in net.calls[:-1]:
                 wr = c["writer"]
                 if c["t_done"] is None or (wr is not None and not wr.closed):
                     fails.append(("overlap:connection-still-open", "attempt %d for flow %d starts while attempt %d (flow %d) is still open"
                                   % (k, i, c["i"], c["address"][1] - BASE_PORT)))
-            if replayed:
-                j = replayed[-1]  # (a flow queued again has been reset by start_replay, one cleared by stop was reverted)
-                if j != i and j not in model and j not in stopped and flows[j].response is None and flows[j].error is None:
-                    fails.append(("overlap:previous-flow-unfinished", "attempt for flow %d starts, flow %d has neither response nor error" % (i, j)))
             if not (0 <= i < len(flows)) or kinds[i] in UNREPLAYABLE:
                 fails.append(("unreplayable-reached-server:%s" % (kinds[i] if 0 <= i < len(flows) else "?"), "port %r" % port))
-            elif not model:
-                fails.append(("order:unexpected-replay:%s" % ("after-stop" if i in stopped else "not-queued"), "flow %d reached a server, model queue is empty" % i))
-            elif model[0] != i:
-                fails.append(("order:not-fifo", "flow %d reached a server, expected %d (queue %r)" % (i, model[0], model)))
-                if i in model:
-                    model.remove(i)
-            else:
-                model.pop(0)
-            replayed.append(i)
+            elif current["i"] != i:
+                fails.append(("order:connect-for-flow-not-being-replayed", "connection attempt for flow %d while flow %r is the one being replayed" % (i, current["i"])))
 
         def on_connect(k, host, port, r, w):
             spec = sc["servers"][k] if k < len(sc["servers"]) else {"mode": "respond", "rdelay": 0, "status": 200, "blen": 0}
@@ -267,7 +285,7 @@ def run_scenario(sc, ctx):
                     if delay:
                         await asyncio.sleep(delay * U)
                     if op == "start":
-                        idxs = [i for i in idxs if i not in model]  # a flow is not submitted again while still queued
+                        # (a flow may be submitted again while an earlier submission is still waiting in the queue)
                         before = {i: flows[i].get_state() for i in idxs}
                         # a flow whose replay is just finishing is still "inflight" for the addon and is refused as live
                         live_now = {i: bool(flows[i].live) or cp.inflight is flows[i] for i in idxs}
@@ -288,8 +306,12 @@ def run_scenario(sc, ctx):
                                 if n_added != 1:
                                     fails.append(("replayable-not-queued:" + kinds[i], "flow %d queued %d times" % (i, n_added)))
                                 else:
+                                    if i not in model:  # first pending submission: this is the pre-replay state
+                                        pre[i] = before[i]
+                                        dirty.discard(i)
+                                    else:
+                                        info["resubmitted"] += 1
                                     model.append(i)
-                                    pre[i] = before[i]
                                     stopped.discard(i)
                     else:
                         queued = list(cp.queue._queue)
@@ -298,11 +320,17 @@ def run_scenario(sc, ctx):
                             info["stop_nonempty"] += 1
                         if cp.queue.qsize():
                             fails.append(("stop:queue-not-empty", "%d left" % cp.queue.qsize()))
+                        inflight = cp.inflight
                         for f in queued:
                             i = flows.index(f)
                             if i in model:
                                 model.remove(i)
                             stopped.add(i)
+                            if i in dirty or f is inflight:
+                                # an earlier submission of this flow has been (is being) replayed since the snapshot was
+                                # taken: what "pre-replay state" means for the remaining one is not defined by the property
+                                info["stop_dirty"] += 1
+                                continue
                             if f.get_state() != pre.get(i):
                                 had = "had-backup" if pre.get(i, {}).get("backup") else "no-backup"
                                 diff = sorted(k for k in set(pre[i]) | set(f.get_state()) if pre[i].get(k) != f.get_state().get(k))
@@ -363,3 +391,7 @@ def check_case(case, ctx):
     if info["stuck"]:
         ctx.cls("stuck-on-never-server")
     ctx.cls("eager" if case.get("eager") else "lazy")
+    if info["resubmitted"]:
+        ctx.cls("flow-resubmitted-while-queued" + ("+stop" if info["stop_nonempty"] else ""))
+    if info["stop_dirty"]:
+        ctx.cls("stop-with-partly-replayed-resubmission")
